@@ -6,6 +6,7 @@ objects (counters) and compares the modes with each other.
 (2) Fault enumeration: a malformed container at every row boundary must stop reading with a
 DataFormatError in every mode.
 """
+import io
 import os
 
 from mc import engine, harness, readermachine
@@ -171,6 +172,21 @@ def fault_case(case, part):
         content = content[: fault["at"]]
     elif kind == "no-central-directory":
         content = content[: content.rindex(b"PK\x01\x02")]
+    elif kind == "flip":
+        # one byte of the archive inverted; inside the compressed data of a member the reader needs this must end in a data format error
+        import zipfile
+
+        needed = {"ods": ("content.xml",), "excel": ("xl/workbook.xml", "xl/worksheets/sheet1.xml", "xl/sharedStrings.xml")}[fmt]
+        with zipfile.ZipFile(io.BytesIO(content)) as archive:
+            for info in archive.infolist():
+                name_length, extra_length = int.from_bytes(content[info.header_offset + 26:info.header_offset + 28], "little"), int.from_bytes(content[info.header_offset + 28:info.header_offset + 30], "little")
+                start = info.header_offset + 30 + name_length + extra_length
+                if info.filename in needed and start <= fault["at"] < start + info.compress_size:
+                    must_fail = True
+                    break
+            else:
+                must_fail = False
+        content = content[: fault["at"]] + bytes([content[fault["at"]] ^ 0xFF]) + content[fault["at"] + 1:]
     elif kind == "bad-byte":
         lines = content.split(b"\n")
         lines[fault["row"]] = lines[fault["row"]][:1] + b"\x81" + lines[fault["row"]][2:]
@@ -206,6 +222,8 @@ def fault_case(case, part):
         part.transitions += 1
         part.validated += 1
         part.outcome("fault:%s" % (raised["type"] if raised else "no-error"))
+        if kind == "flip" and not must_fail and raised is None:
+            continue  # the damage sits where this reader does not look
         if raised is None or raised["type"] != "DataFormatError":
             what = "no-error" if raised is None else raised["type"]
             part.fail(tag % ("%s-mode-ends-with-%s" % (mode, what)), case, "DataFormatError", {"events": len(events), "raised": raised})
@@ -300,6 +318,8 @@ def fault_cases(tier):
             cases.append({"config": config, "table": table, "fault": {"kind": "truncate", "at": at}})
         cases.append({"config": config, "table": table, "fault": {"kind": "truncate", "at": size - 1}})
         cases.append({"config": config, "table": table, "fault": {"kind": "no-central-directory"}})
+        for at in range(0, size, 16 if tier == "quick" else 1):
+            cases.append({"config": config, "table": table, "fault": {"kind": "flip", "at": at}})
     material = readermachine.xls_material()
     if material is not None:
         for at in range(0, len(material), 7 if tier == "quick" else 1):
